@@ -53,6 +53,12 @@ func (d *Driver) Ask(line string) (string, error) {
 		return "", fmt.Errorf("request contains newline")
 	}
 	d.N++
+	if f := os.Getenv("VERIF_DUMP"); f != "" {
+		if fh, err := os.OpenFile(f, os.O_APPEND|os.O_CREATE|os.O_WRONLY, 0o644); err == nil {
+			fh.WriteString(line + "\n")
+			fh.Close()
+		}
+	}
 	if _, err := io.WriteString(d.in, line+"\n"); err != nil {
 		return "", err
 	}
